@@ -422,7 +422,7 @@ class ParallelTemperedChain(BaseChain):
         if self._temperature_acceptance is None:
             return None
         out = self._temperature_acceptance[:(len(self)//self.swap_interval)]
-        return out['acceptance_ratio'].T
+        return out['acceptance_ratio'].T.reshape(self.ntemps-1, -1)
 
     @property
     def temperature_swaps(self):
@@ -589,8 +589,10 @@ class ParallelTemperedChain(BaseChain):
             if self.reset_after_swap and tk != swap_index[tk]:
                 chain._reset_proposals()
 
+        # with two temperatures there is a single pair, and the scratch space
+        # is one dimensional, so store a scalar
         self._temperature_acceptance[ii//self.swap_interval] = {
-            'acceptance_ratio': ars}
+            'acceptance_ratio': ars if self.ntemps > 2 else ars.item()}
         self._temperature_swaps[ii//self.swap_interval] = {
             'swap_index': swap_index}
 
